@@ -47,6 +47,58 @@ def tv(x):
     return out
 
 
+def falsy_family(ld, r, count, disk_dir=None):
+    """examples that are None / 0 / '' / False / () / [] / {}: a cached example stays cached whatever its value - the pipeline
+    runs once per example, and every later access (position of either sign, key, iteration, items, slice, copy) returns the first value"""
+    import tempfile, shutil
+    fails = []
+    VALS = [None, 0, '', False, (), [], {}, 0.0, 7]
+    with warnings.catch_warnings():
+        warnings.simplefilter('ignore')
+        for _ in range(count):
+            n = r.randint(1, 5)
+            vals = [r.choice(VALS) for _i in range(n)]
+            calls = collections.Counter()
+
+            def fn(i, vals=vals, calls=calls):
+                calls[i] += 1
+                v = vals[i]
+                return (v, calls[i]) if calls[i] > 1 else v        # a second evaluation would be visible
+            keyed = r.random() < 0.5
+            src = ld.new({f'key{i}': i for i in range(n)} if keyed else list(range(n))).map(fn)
+            wd = None
+            try:
+                if disk_dir is not None:
+                    wd = tempfile.mkdtemp(prefix='falsy_', dir=disk_dir)
+                    d = src.diskcache(cache_dir=os.path.join(wd, 'c'))
+                else:
+                    d = src.cache() if r.random() < 0.5 else ld.core.CacheDataset(src, None, immutable_warranty=r.choice(['pickle', 'copy']))
+                seen = []
+                for _a in range(r.randint(2, 6)):
+                    how = r.choice(['idx', 'neg', 'iter', 'slice', 'copy'] + (['key', 'items'] if keyed else []))
+                    i = r.randrange(n)
+                    if how == 'idx': seen.append((i, d[i]))
+                    elif how == 'neg': seen.append((i, d[i - n]))
+                    elif how == 'key': seen.append((i, d[f'key{i}']))
+                    elif how == 'iter': seen += list(enumerate(d))
+                    elif how == 'items': seen += [(j, kv[1]) for j, kv in enumerate(d.items())]
+                    elif how == 'slice': seen += [(i + j, x) for j, x in enumerate(d[i:])]
+                    else: seen.append((i, d.copy(freeze=True)[i]))
+                bad = [(i, v) for i, v in seen if repr(v) != repr(vals[i])]
+                if bad or any(c > 1 for c in calls.values()):
+                    fails.append(dict(kind='history', summary=f'{"disk" if disk_dir else "memory"} cache over examples {vals!r}: pipeline evaluations per example {dict(calls)}, '
+                                      f'accesses that did not return the first value: {bad[:4]}'[:600], config=dict(kind='falsy', vals=[repr(v) for v in vals])))
+                del d
+            except Exception as e:
+                fails.append(dict(kind='history', summary=f'cache over examples {vals!r} raised {type(e).__name__}: {e}'[:300], config=dict(kind='falsy')))
+            finally:
+                if wd:
+                    import gc
+                    gc.collect()
+                    shutil.rmtree(wd, ignore_errors=True)
+    return fails
+
+
 def run_history(ld, n, limited, mem, ops, keyed):
     """returns (outs, calls, cache size)"""
     import psutil
@@ -347,6 +399,9 @@ def run(tier):
                eager_snapshot_cases=60 if tier == 'quick' else 600,
                samples=[dict(n=h[0], limited=h[1], mem=h[2], ops=h[3], result=results[i]) for i, h in list(enumerate(hist))[:3]],
                exhaustive=False)
+    nf = 150 if tier == 'quick' else 2500
+    failures += falsy_family(ld, common.rng_for('C10-falsy'), nf)
+    cov['falsy_example_histories'] = nf
     return dict(coverage=cov, failures=failures, assumptions=['pickle round trip of cached values is faithful'])
 
 
@@ -395,6 +450,10 @@ def replay(payload):
     c = payload['config']
     if not c:
         return True
+    if c.get('kind') == 'falsy':
+        ff = falsy_family(ld, common.rng_for('C10-falsy'), 150)
+        print('  falsy-example family:', [f['summary'][:200] for f in ff[:2]])
+        return bool(ff)
     ops = [tuple(o) for o in c['ops']]
     res = run_history(ld, c['n'], c['limited'], c['mem'], ops, c['keyed'])
     d = direct(c['n'], c['limited'], c['mem'], ops, res)
